@@ -377,6 +377,17 @@ def get_attr(I, obj, name):
             if name in attrs:
                 return attrs[name]
             I.raise_("AttributeError", name)
+    if isinstance(obj, SStr):
+        if name == "encode":
+            return BuiltinFn("encode", lambda *a: obj.utf8)
+        raise PyvcError(f"str.{name} on a symbolic string not modelled")
+    if isinstance(obj, SBytes) and name == "decode":
+        def decode(*a):
+            # arbitrary bytes may be invalid UTF-8
+            if I.eng.choose(2, "invalid utf-8?") == 1:
+                I.raise_("UnicodeDecodeError", "utf-8", b"", 0, 1, "invalid start byte")
+            return SStr(obj)
+        return BuiltinFn("decode", decode)
     if isinstance(obj, SSeq):
         return sseq_method(I, obj, name)
     if isinstance(obj, ast.AST):
@@ -825,6 +836,8 @@ def equal_values(I, a, b):
         return sv_and(*[I.truth(equal_values(I, x, y)) for x, y in zip(xs, ys)])
     if isinstance(a, (SBytes, bytes)) and isinstance(b, (SBytes, bytes)):
         return bytes_equal(I, a, b)
+    if isinstance(a, SStr) and isinstance(b, SStr):
+        return bytes_equal(I, a.utf8, b.utf8)
     if isinstance(a, PObj):
         from .interp import ClassVal
 
@@ -1061,6 +1074,17 @@ class IdToken:
 
     def __repr__(self):
         return f"id({self.ref!r})"
+
+
+class SStr:
+    """A symbolic str, represented by its UTF-8 encoding (library contract L-utf8: encode() is injective and
+    decode() of those bytes gives the string back; decode() of arbitrary bytes may raise UnicodeDecodeError)."""
+
+    def __init__(self, utf8):
+        self.utf8 = utf8
+
+
+LIBRARY_CONTRACTS["L-utf8"] = "str.encode() / bytes.decode() (UTF-8) are mutually inverse on valid data; decoding invalid data raises UnicodeDecodeError"
 
 
 class RangeVal:
@@ -1849,6 +1873,9 @@ def make_builtins(I):
                     return default[0]
                 I.raise_("StopIteration")
             return it.items.pop(0)
+        h = getattr(I.registry, "next_hook", None)  # models_dyn: lazy generator expressions, scripted iterators
+        if h is not None:
+            return h(I, it, default)
         raise PyvcError("next() on non-iterator")
 
     def b_bool(x=False):
